@@ -78,10 +78,29 @@ Proof.
   - apply andb_prop in H. destruct H as [H _]. destruct t as [|[|[|t]]]; [left | right; left | right; right | discriminate]; reflexivity.
   - apply IH. apply andb_prop in H. apply H.
 Qed.
+Fixpoint greedy (stp : gst -> N -> option gst) (pref : list N) (fuel : nat) (s : gst) : list N :=
+  match fuel with
+  | O => []
+  | S f => match pref with
+           | t :: p => match stp s t with Some s' => t :: greedy stp p f s' | None => greedy stp p f s end
+           | [] => match stp s 0 with
+                   | Some s' => 0 :: greedy stp [] f s'
+                   | None => match stp s 1 with Some s' => 1 :: greedy stp [] f s' | None => [] end
+                   end
+           end
+  end.
+Lemma is_sched_b l : forallb (fun t => N.leb t 2) l = true -> is_sched l.
+Proof.
+  unfold is_sched. induction l as [|t l IH]; cbn [forallb]; intro H; constructor.
+  - apply andb_prop in H. destruct H as [H _].
+    destruct t as [|p]; [left; reflexivity|]. destruct p as [p|p|]; [destruct p; discriminate H | | right; left; reflexivity].
+    destruct p as [p|p|]; [destruct p; discriminate H | destruct p; discriminate H | right; right; reflexivity].
+  - apply IH. apply andb_prop in H. apply H.
+Qed.
 (* N is parked on the empty word.  Task 1: readFE blocks on FEQ.  Task 0: fill marks the word full, takes N off FFQ into its batch,
    releases the blocked readFE (the word is empty again: not removeable), unlocks the record -- and returns: N is neither
    re-checked, nor re-parked, nor enqueued *)
-Definition skip_schedule : list nat := [1;1;1;1;1;1;1;0;0;0;0;0;0;0;0;0;0;0;0;0;0;0]%nat.
+Definition skip_schedule : list nat := [1;1;1;1;1;1;1;0;0;0;0;0;0;0;0;0;0;0;0;0;0]%nat.
 Lemma skip_witness :
   exists s, run_with mstep_skip (minit IPre1 OFill (OReadFE DOwn)) (sched_of skip_schedule) = Some s /\
             final_with mstep_skip s /\ good_final s = false /\ nascent_final_ok s = false /\
@@ -99,20 +118,26 @@ Theorem micro3pre_skip_variant_partial : forall k oa ob,
 Proof. intros k oa ob Ha Hb Hc. exact (sweep_sound _ _ _ _ k oa ob (skipvar_all k) Ha Hb Hc). Qed.
 (* the same pair, the code as it is: N is re-parked on the word, which is empty again *)
 Example skip_pair_now :
-  exists s, run_with mstep (minit IPre1 OFill (OReadFE DOwn)) (sched_of (skip_schedule ++ [0;0;0;0;0;0;0]%nat)) = Some s /\
-            final_with mstep s /\ good_final s = true /\ n_launch (g_n s) = 0%nat /\ on_w_ffq s = 1%nat /\ full_now s = false.
-Proof. eexists. vm_compute. repeat split; reflexivity. Qed.
+  exists sched s, is_sched sched /\ run_with mstep (minit IPre1 OFill (OReadFE DOwn)) sched = Some s /\
+            final_with mstep s /\ good_final s = true /\ n_launch (g_n s) = 0%nat /\ on_w_ffq s = 1%nat /\ full_now s = false /\
+            res_of (g_t1 s) = Some (OK, Some 5%Z).
+Proof.
+  exists (greedy mstep [1;1;1;1;1;1;1] 200 (minit IPre1 OFill (OReadFE DOwn))). eexists.
+  split; [apply is_sched_b; vm_compute; reflexivity|]. vm_compute. repeat split; reflexivity.
+Qed.
 
 (* regression variant: the batch is enqueued without the re-check: N starts although the word was emptied again *)
-Definition nocheck_schedule : list nat := [0;0;0;0;0;0;0;0;0;0;1;1;1;1;1;1;1;1;1;0;0;0;0;0;0;0]%nat.
+Definition nocheck_prefix : list N := [0;0;0;0;0;0;0;0;0;0;1;1;1;1;1;1;1].
+Definition nocheck_schedule : list N := greedy mstep_nocheck nocheck_prefix 200 (minit IPre1 OFill OEmpty).
 Lemma nocheck_witness :
-  exists s, run_with mstep_nocheck (minit IPre1 OFill OEmpty) (sched_of nocheck_schedule) = Some s /\
+  exists s, run_with mstep_nocheck (minit IPre1 OFill OEmpty) nocheck_schedule = Some s /\
             final_with mstep_nocheck s /\ n_bad (g_n s) = true /\ n_launch (g_n s) = 1%nat /\ n_seenW (g_n s) = false.
 Proof. eexists. vm_compute. repeat split; reflexivity. Qed.
 Theorem micro3pre_nocheck_variant_refuted : ~ pre_holds mstep_nocheck inv_ok good_final IPre1 OFill OEmpty.
 Proof.
   intros [H _]. destruct nocheck_witness as (s & R & _ & B & _).
-  pose proof (H (sched_of nocheck_schedule) s (is_sched_of nocheck_schedule eq_refl) R) as G.
+  assert (Hs : is_sched nocheck_schedule) by (apply is_sched_b; vm_compute; reflexivity).
+  pose proof (H nocheck_schedule s Hs R) as G.
   unfold inv_ok, launch_ok in G. rewrite B in G. discriminate.
 Qed.
 
@@ -120,16 +145,19 @@ Qed.
 (* the launch raced by the second call: fill collects N and drops the record lock; empty re-empties the word; the re-check of
    fill's launch then finds the word empty and parks N again -- it is not launched *)
 Example relaunch_raced :
-  exists s, run_with mstep (minit IPre1 OFill OEmpty) (sched_of nocheck_schedule) = Some s /\
+  exists sched s, is_sched sched /\ run_with mstep (minit IPre1 OFill OEmpty) sched = Some s /\
             final_with mstep s /\ good_final s = true /\ n_launch (g_n s) = 0%nat /\ on_w_ffq s = 1%nat /\ full_now s = false.
-Proof. eexists. vm_compute. repeat split; reflexivity. Qed.
+Proof.
+  exists (greedy mstep nocheck_prefix 200 (minit IPre1 OFill OEmpty)). eexists.
+  split; [apply is_sched_b; vm_compute; reflexivity|]. vm_compute. repeat split; reflexivity.
+Qed.
 (* two words: w is seen full, u is empty: N parks on u; the environment fills u: launched exactly once, both words seen *)
 Example two_words_launch :
   exists sched s, is_sched sched /\ run_with mstep (minit IPre2E OFill OStatus) sched = Some s /\ final_with mstep s /\
                   good_final s = true /\ n_launch (g_n s) = 1%nat /\ n_seenW (g_n s) = true /\ n_seenU (g_n s) = true /\ g_flips s = 0%nat.
 Proof.
-  exists (sched_of ([0;0;0;0;0;0;0;0;0;0;0;0;0;0;0;0;0;0;0;0;0;0;0;0;0;0] ++ [2] ++ [1;1;1;1;1;1])%nat). eexists.
-  split; [apply is_sched_of; vm_compute; reflexivity|]. vm_compute. repeat split; reflexivity.
+  exists (greedy mstep [] 200 (minit IPre2E OFill OStatus) ++ [2]). eexists.
+  split; [apply is_sched_b; vm_compute; reflexivity|]. vm_compute. repeat split; reflexivity.
 Qed.
 Lemma skip_class_count :
   length (filter (fun x => x) (flat_map (fun k => flat_map (fun oa => map (fun ob => skip_class k oa ob) (ops_of vb)) (ops_of va)) ikinds)) = 24%nat.
